@@ -136,9 +136,43 @@ def check_arith_oracle(op, operand_canon, result):
     return None
 
 
+def f32_of(canon):
+    """a canonical operand as the binary32 value a mixed comparison uses: a real is itself; an exact INTEGER is converted by
+    one correctly rounded int->binary32 conversion (python: int -> double is exact below 2^53, double -> binary32 rounds once).
+    None for ratios (their conversion is a/b with three roundings, not predicted here) and non-numbers."""
+    import struct
+    if canon.startswith("r:"):
+        if canon == "r:nan":
+            return float("nan")
+        return struct.unpack(">f", int(canon[2:]).to_bytes(4, "big"))[0]
+    if canon.startswith("i:"):
+        return struct.unpack(">f", struct.pack(">f", float(int(canon[2:]))))[0]
+    return None
+
+
+def pair_holds(op, a, b):
+    """one adjacent pair of a comparison as the property defines it: both exact -> the order in Q; one exact and one
+    inexact -> the exact one converted to binary32 first; None when not predicted"""
+    f = {"=": lambda x, y: x == y, "<": lambda x, y: x < y, ">": lambda x, y: x > y,
+         "<=": lambda x, y: x <= y, ">=": lambda x, y: x >= y}[op]
+    ea, eb = exact_of(a), exact_of(b)
+    if ea is not None and eb is not None:
+        return f(ea, eb)
+    fa, fb = f32_of(a), f32_of(b)
+    if fa is None or fb is None:
+        return None
+    return f(fa, fb)
+
+
 def check_cmp_oracle(op, operand_canon, result):
     xs = [exact_of(c) for c in operand_canon]
     if any(x is None for x in xs):
+        if op in CMP_OPS and len(operand_canon) >= 2 and (result in ("V #t", "V #f")):
+            pairs = [pair_holds(op, a, b) for a, b in zip(operand_canon, operand_canon[1:])]
+            if all(p is not None for p in pairs):
+                want = "V #t" if all(pairs) else "V #f"
+                if result != want:
+                    return "expected %s (an exact operand next to an inexact one is converted to binary32 first), got %s" % (want, result)
         return None
     if result.startswith("P "):
         return "panic"
